@@ -14,6 +14,8 @@ def sh(c):
 for d in sorted(glob.glob('/verif/seeded/*/')):
     meta = json.load(open(d + 'meta.json'))
     prop = meta['breaks_property']
+    if meta.get('obsolete_since'):
+        print(meta['id'], 'obsolete, skipped'); continue
     sh(f'git checkout -q --detach {head} && git checkout -q -- . && git clean -fdq')
     if sh(f'git apply {d}patch.diff').returncode != 0:
         print(meta['id'], 'NOAPPLY'); continue
